@@ -16,6 +16,8 @@ func init() {
 	extraScenarios["C11/block"] = blockScenarios
 	extraGroups["C12"] = []exploreGroup{{"end", 3, 4}}
 	extraScenarios["C12/end"] = endScenarios
+	extraGroups["C07"] = []exploreGroup{{"blockexp", 2, 3}}
+	extraScenarios["C07/blockexp"] = blockExpiryScenarios
 	extraGroups["C14"] = []exploreGroup{{"flush", 2, 3}}
 	extraScenarios["C14/flush"] = flushScenarios
 }
@@ -263,6 +265,42 @@ func endScenarios(tier string) []*Scenario {
 		add(&linScenario{name: "timeout/spurious-wake/" + w[0], threads: [][][]string{W(w...), spur}, sleepBefore: map[[2]int]int{{1, 0}: 500}, noLin: true, extra: timeoutOracle(1000000)})
 		add(&linScenario{name: "timeout/two-spurious-wakes/" + w[0], threads: [][][]string{W(w...), spur, spur}, sleepBefore: map[[2]int]int{{1, 0}: 300, {2, 0}: 700}, noLin: true, extra: timeoutOracle(1000000)})
 	}
+	// (a'') a block that has been woken for nothing and then ends - by its timeout, CLIENT UNBLOCK or
+	// CLIENT KILL - leaves nothing behind in the wait queue: the next waiter of the key is served by the
+	// next push (a seeded change of wave 5 gave the re-registered waiter a new wake signal that nobody disposed)
+	{
+		spur := T([]string{"MULTI"}, []string{"RPUSH", "k", "x"}, []string{"LPOP", "k"}, []string{"EXEC"})
+		spurReplies := []string{"+OK", "+QUEUED", "+QUEUED", "[:1 \"x\"]"}
+		_ = spurReplies
+		for ci, w := range [][]string{{"BLPOP", "k", "0"}, {"BLMOVE", "k", "m", "LEFT", "RIGHT", "0"}, {"BRPOP", "j", "k", "0"}} {
+			if tier != "thorough" && ci > 1 {
+				continue
+			}
+			for _, end := range [][]string{{"CLIENT", "UNBLOCK", "$id0"}, {"CLIENT", "UNBLOCK", "$id0", "ERROR"}, {"CLIENT", "KILL", "ID", "$id0"}} {
+				n := "ghost/" + w[0] + "|spurious-wake|" + strings.Join(end[1:2], "") + strings.Join(end[3:], "") + "|BLPOP|RPUSH"
+				add(&linScenario{name: n, threads: [][][]string{W(w...), spur, W(end...), W("BLPOP", "k", "0"), W("RPUSH", "k", "v"), W("LLEN", "k")}, phases: []int{0, 1, 2, 3, 4, 5}, noLin: true,
+					extra: func(ls *linScenario, x *Exec, per [][]*Call) [][2]string {
+						var out [][2]string
+						if len(per[3]) == 0 || per[3][0].Reply.String() != `["k" "v"]` {
+							got := "(blocked)"
+							if len(per[3]) > 0 {
+								got = per[3][0].Reply.String()
+							}
+							out = append(out, [2]string{"ghost-waiter", "after a woken-for-nothing block ended, the next waiter of the key is not served by the next push: BLPOP k 0 => " + got})
+						}
+						if len(per[5]) == 1 && per[5][0].Reply.String() != ":0" {
+							out = append(out, [2]string{"ghost-waiter-element-left", "the pushed element stays in the list although a client waits for it: LLEN k => " + per[5][0].Reply.String()})
+						}
+						return out
+					}})
+			}
+		}
+		// ended by its own timeout: the spurious wake-up comes 300 ms into a block of 1 s
+		for _, w := range [][]string{{"BLPOP", "k", "1"}, {"BLMPOP", "1", "1", "k", "LEFT"}} {
+			add(&linScenario{name: "ghost/" + w[0] + "|spurious-wake|timeout|BLPOP|RPUSH", threads: [][][]string{W(w...), spur, W("BLPOP", "k", "0"), W("RPUSH", "k", "v"), W("LLEN", "k")}, phases: []int{0, 0, 1, 2, 3}, sleepBefore: map[[2]int]int{{1, 0}: 300}, noLin: true,
+				extra: expectOracle([][]string{{"nil"}, nil, {`["k" "v"]`}, {":1"}, {":0"}})})
+		}
+	}
 	// (b) CLIENT UNBLOCK at every moment of the block protocol
 	for _, mode := range [][]string{nil, {"TIMEOUT"}, {"ERROR"}} {
 		u := append([]string{"CLIENT", "UNBLOCK", "$id0"}, mode...)
@@ -329,6 +367,42 @@ func instantOracle(ls *linScenario, x *Exec, per [][]*Call) [][2]string {
 				out = append(out, [2]string{fmt.Sprintf("waited-inside-transaction:c%d.%d", i+1, j), fmt.Sprintf("connection %d command %d (%v) took %d ms of virtual time", i+1, j, c.Args, c.TRet-c.TInv)})
 			}
 		}
+	}
+	return out
+}
+
+// blockExpiryScenarios (C07): a key whose deadline passes WHILE a command is blocked is a missing
+// key when the command is finally served - the only commands that live long enough for the clock
+// to move under them (a seeded change of wave 5 sampled the clock once per command).
+func blockExpiryScenarios(tier string) []*Scenario {
+	var out []*Scenario
+	T := func(cmds ...[]string) [][]string { return cmds }
+	W := func(args ...string) [][]string { return [][]string{args} }
+	add := func(ls *linScenario) {
+		ls.allowPending, ls.noLin, ls.noConservation = true, true, true
+		ls.phases = []int{0, 1, 2} // blocked; the push, 500 ms later; the observation, when everything is at rest
+		ls.sleepBefore = map[[2]int]int{{1, 0}: 500} // the deadlines are at 300 ms
+		out = append(out, ls.scenario())
+	}
+	// the destination of a blocked move expires: the element starts a new list without a deadline
+	for _, w := range [][]string{{"BLMOVE", "src", "dst", "LEFT", "RIGHT", "0"}, {"BRPOPLPUSH", "src", "dst", "0"}, {"BLMOVE", "src", "dst", "RIGHT", "LEFT", "0"}} {
+		n := "blockexp/" + strings.Join(w[:len(w)-1], "_")
+		add(&linScenario{name: n + "/list-destination-expires", setup: [][]string{{"RPUSH", "dst", "old"}, {"PEXPIRE", "dst", "300"}},
+			threads: [][][]string{W(w...), W("RPUSH", "src", "x"), T([]string{"LRANGE", "dst", "0", "-1"}, []string{"PTTL", "dst"}, []string{"LLEN", "src"})},
+			extra: expectOracle([][]string{{`"x"`}, {":1"}, {`["x"]`, ":-1", ":0"}})})
+		add(&linScenario{name: n + "/string-destination-expires", setup: [][]string{{"SET", "dst", "text", "PX", "300"}},
+			threads: [][][]string{W(w...), W("RPUSH", "src", "x"), T([]string{"TYPE", "dst"}, []string{"LRANGE", "dst", "0", "-1"}, []string{"PTTL", "dst"})},
+			extra: expectOracle([][]string{{`"x"`}, {":1"}, {"+list", `["x"]`, ":-1"}})})
+		// ... and one that does not expire keeps its deadline and its elements
+		add(&linScenario{name: n + "/destination-alive", setup: [][]string{{"RPUSH", "dst", "old"}, {"PEXPIRE", "dst", "100000"}},
+			threads: [][][]string{W(w...), W("RPUSH", "src", "x"), T([]string{"LLEN", "dst"}, []string{"PTTL", "dst"})},
+			extra: expectOracle([][]string{{`"x"`}, {":1"}, {":2", ":99500"}})})
+	}
+	// other keys expire while a client is blocked: they are gone for everybody afterwards
+	for _, w := range [][]string{{"BLPOP", "k", "0"}, {"BRPOP", "j", "k", "0"}, {"BLMPOP", "0", "1", "k", "LEFT"}} {
+		add(&linScenario{name: "blockexp/" + w[0] + "/other-key-expires", setup: [][]string{{"SET", "other", "v", "PX", "300"}},
+			threads: [][][]string{W(w...), W("RPUSH", "k", "x"), T([]string{"EXISTS", "k"}, []string{"EXISTS", "other"}, []string{"KEYS", "*"})},
+			extra: expectOracle([][]string{{}, {":1"}, {":0", ":0", "[]"}})})
 	}
 	return out
 }
